@@ -198,6 +198,78 @@ def c13_extra(pid, tier, seed):
     return viol, cov
 
 
+def c17_extra(pid, tier, seed):
+    """Segment.Migrate on encoder-written segments: the migrated files must be exactly what the independent encoder writes
+    for the same messages in the target version (every message kept, the index derived from the new positions), a second
+    Migrate to the same version must do nothing; bytes and file-system steps are compared with RecoverCrash.migrate_prog."""
+    import recov
+    rng = random.Random(kv_seed(seed, 'c17mig'))
+    n = 120 if tier == 'quick' else 3000
+    seg_lines, tgt_lines, meta = [], [], []
+    for i in range(n):
+        v = rng.choice([1, 2])
+        mv = 3 - v if rng.random() < 0.85 else v
+        iv, iv2 = rng.choice([1, 2]), rng.choice([1, 2])
+        t, k = rng.choice([0, 1]), rng.choice([0, 1])
+        base = rng.choice([0, 0, 9, 100000])
+        cnt = rng.choice([0, 1, 2, 3, 5]) if v == 2 else rng.choice([1, 2, 3, 5])
+        off, tcur, msgs = base, rng.randrange(0, 5000), []
+        for j in range(cnt):
+            tcur += rng.choice([0, 0, 1, 7])
+            key = '-' if rng.random() < 0.3 else rnd_bytes(rng, rng.choice([1, 2, 8, 20]))
+            msgs.append('%d|%d|%s|%s' % (off, tcur, key, rnd_bytes(rng, rng.choice([0, 1, 9, 40]))))
+            off += rng.choice([1, 1, 1, 3])
+        seg_lines.append(('mkseg %d %d %d %d %d %s' % (v, iv, t, k, base, ' '.join(msgs))).strip())
+        tgt_lines.append(('mkseg %d %d %d %d %d %s' % (mv, iv2, t, k, base, ' '.join(msgs))).strip())
+        meta.append((v, mv, iv2, t, k, base, cnt))
+    src = recov.model_lines(seg_lines, 'c17seg-' + pid)
+    tgt = recov.model_lines(tgt_lines, 'c17tgt-' + pid)
+    lines, want = [], {}
+    for (v, mv, iv2, t, k, base, cnt), so, to in zip(meta, src, tgt):
+        L, I = so.split()
+        if L == '-' and v == 2:
+            continue
+        withidx = I if cnt % 2 == 0 else 'none'
+        line = 'migrate %d %d %d %d %d %s %s' % (mv, iv2, t, k, base, L, withidx)
+        lines.append(line)
+        want[line] = (v, mv, to.split(), L, withidx)
+    lines = list(dict.fromkeys(lines))
+    res = run_codec(lines, 'codec17-' + pid) if lines else []
+    viol, again = [], []
+    for op, impl, model in res:
+        v, mv, (TL, TI), L, I0 = want[op]
+        t = impl.split()
+        if t[:1] != ['ok'] or len(t) < 3:
+            viol.append(('P', '# C17 violated: Migrate of a clean segment fails\n# op: %s\n# implementation: %s\n' % (op[:600], impl[:300])))
+            continue
+        if v == mv:
+            if t[1] != L or [x for x in t[3:] if x.startswith('steps=')] != ['steps=']:
+                viol.append(('P', '# C17 violated: Migrate to the version the segment already has changes it\n# op: %s\n# implementation: %s\n' % (op[:600], impl[:600])))
+        elif t[1] != TL or t[2] != TI or any(x.startswith('extra:') for x in t[3:]):
+            viol.append(('P', '# C17 violated: the migrated segment is not what an independent encoder of the documented layout writes for '
+                              'the same messages in the target version (log, derived index, nothing else left behind)\n# op: %s\n# implementation: %s\n'
+                              '# encoder: %s %s\n' % (op[:600], impl[:600], TL[:300], TI[:300])))
+        elif impl != model:
+            viol.append(('corr', '# correspondence corr:C17/migrate-program: bytes or file-system steps of Segment.Migrate differ from '
+                                 'RecoverCrash.migrate_prog (theorem C17_migrate_crash_safe)\n# op: %s\n# impl: %s\n# model: %s\n'
+                         % (op[:600], impl[-400:], model[-400:])))
+        else:
+            f = op.split()
+            again.append('migrate %s %s %s %s %s %s %s' % (f[1], f[2], f[3], f[4], f[5], t[1], t[2]))
+    res2 = run_codec(list(dict.fromkeys(again)), 'codec17b-' + pid) if again else []
+    for op, impl, model in res2:
+        f = op.split()
+        t = impl.split()
+        if t[:3] != ['ok', f[6], f[7]] or 'steps=' not in t:
+            viol.append(('P', '# C17 violated: migrating twice is not the same as once\n# op: %s\n# implementation: %s\n' % (op[:600], impl[:600])))
+    cov = dict(segment_migrations=dict(segments=len(lines), migrated_again=len(res2),
+                                       rule='encoder-written segments (0-5 messages, both versions, four index layouts, with and '
+                                            'without index file) migrated to the other (15%: the same) version with either index '
+                                            'version; result compared with the encoder\'s own files for the target version and, '
+                                            'bytes and FS steps, with RecoverCrash.migrate_prog'))
+    return viol, cov
+
+
 def canon(m):
     o, t, k, v = m.split('|')
     return '%s|%s|%s|%s' % (o, t, k, v)
